@@ -537,3 +537,457 @@ Lemma covers_save_base sd n :
   n = CMain \/ n = CAcc \/ n = CRef ->
   existsb (fun sc : setcookie => cname_eqb (fst (fst sc)) n) (save_cookies sd) = true.
 Proof. intros [->|[->| ->]]; unfold save_cookies; cbn; rewrite ?orb_true_r; reflexivity. Qed.
+
+(* ================================================================== 5. what the sub-handlers return *)
+
+Section Handlers.
+  Variable E : env.
+  Variable cfg : config.
+  Notation NCE := (nchunks E).
+
+  (* ---------------------------------------------------------------- Clear *)
+
+  Definition cleared (sd : sdata) : sdata :=
+    mkSd [] [] [] (empty_payloads (s_achunks sd)) (empty_payloads (s_rchunks sd))
+         (s_jar_a sd) (s_jar_r sd) (s_marked_a sd) (s_marked_r sd) (s_live sd).
+
+  Lemma clear_cookies sd : snd (clear sd) = save_cookies (cleared sd).
+  Proof. reflexivity. Qed.
+
+  Lemma get_access_cleared sd : get_access NCE (cleared sd) = TEmpty.
+  Proof. unfold get_access. cbn [cleared s_acc s_achunks]. apply read_token_empty, Forall_empty_payloads. Qed.
+
+  Lemma get_refresh_cleared sd : get_refresh NCE (cleared sd) = TEmpty.
+  Proof. unfold get_refresh. cbn [cleared s_ref s_rchunks]. apply read_token_empty, Forall_empty_payloads. Qed.
+
+  Lemma cleared_all_empty sd : forall sc, In sc (save_cookies (cleared sd)) -> snd (fst sc) = [].
+  Proof.
+    intros sc. unfold save_cookies. cbn [cleared s_main s_acc s_ref s_achunks s_rchunks s_marked_a s_marked_r s_jar_a s_jar_r].
+    rewrite !in_app_iff. intros [H|[H|[H|[H|H]]]].
+    - cbn in H. destruct H as [<-|[<-|[<-|[]]]]; reflexivity.
+    - revert H. generalize 0%nat. induction (s_achunks sd) as [|p l IH]; intros k H; [contradiction|].
+      cbn in H. destruct H as [<-|H]; [reflexivity|exact (IH _ H)].
+    - revert H. generalize 0%nat. induction (s_rchunks sd) as [|p l IH]; intros k H; [contradiction|].
+      cbn in H. destruct H as [<-|H]; [reflexivity|exact (IH _ H)].
+    - unfold deletions in H. destruct (s_marked_a sd); [|contradiction].
+      apply in_map_iff in H. destruct H as (i & <- & _). reflexivity.
+    - unfold deletions in H. destruct (s_marked_r sd); [|contradiction].
+      apply in_map_iff in H. destruct H as (i & <- & _). reflexivity.
+  Qed.
+
+  (* ---------------------------------------------------------------- initiate *)
+
+  (* the session initiate saves: the cleared one plus state, nonce, verifier, return URI *)
+  Definition login_sd (rq : request) (rnd : istr * istr * istr) (sd : sdata) : sdata :=
+    let '(csrf, nonce, verifier) := rnd in
+    let sd1 := fst (clear sd) in
+    let sd2 := set_main 4 nonce (set_main 3 csrf sd1) in
+    let sd3 := if c_pkce cfg then set_main 5 verifier sd2 else sd2 in
+    set_main 7 (if Nat.ltb 1024%nat (q_uri_len rq) then slash else q_uri rq) sd3.
+
+  Lemma initiate_eq rq rnd st sd cookies calls :
+    initiate cfg rq rnd st sd cookies calls =
+    mkResp 302 (Some (LAuth (i_auth_url st) (fst (fst rnd)) (snd (fst rnd))
+                            (if c_pkce cfg then snd rnd else 0) (q_scheme rq) (q_host rq)))
+           ((cookies ++ save_cookies (cleared sd)) ++ save_cookies (login_sd rq rnd sd))
+           BNone None false calls [].
+  Proof. destruct rnd as [[csrf nonce] verifier]. unfold initiate. cbn [clear fst snd]. rewrite <- app_assoc. reflexivity. Qed.
+
+  Lemma login_sd_acc rq rnd sd : s_acc (login_sd rq rnd sd) = [].
+  Proof. destruct rnd as [[a b] c]. unfold login_sd. destruct (c_pkce cfg); reflexivity. Qed.
+  Lemma login_sd_ref rq rnd sd : s_ref (login_sd rq rnd sd) = [].
+  Proof. destruct rnd as [[a b] c]. unfold login_sd. destruct (c_pkce cfg); reflexivity. Qed.
+  Lemma login_sd_achunks rq rnd sd : s_achunks (login_sd rq rnd sd) = empty_payloads (s_achunks sd).
+  Proof.
+    destruct rnd as [[a b] c]. unfold login_sd, empty_payloads.
+    destruct (c_pkce cfg); reflexivity.
+  Qed.
+  Lemma login_sd_rchunks rq rnd sd : s_rchunks (login_sd rq rnd sd) = empty_payloads (s_rchunks sd).
+  Proof.
+    destruct rnd as [[a b] c]. unfold login_sd, empty_payloads.
+    destruct (c_pkce cfg); reflexivity.
+  Qed.
+
+  Lemma login_sd_not_auth rq rnd sd : get_bool 1 (s_main (login_sd rq rnd sd)) = false.
+  Proof.
+    destruct rnd as [[a b] c]. unfold login_sd.
+    destruct (c_pkce cfg); rewrite !main_set_main, !get_bool_set_str; reflexivity.
+  Qed.
+
+  Lemma get_access_login_sd rq rnd sd : get_access NCE (login_sd rq rnd sd) = TEmpty.
+  Proof.
+    unfold get_access. rewrite login_sd_acc, login_sd_achunks.
+    apply read_token_empty, Forall_empty_payloads.
+  Qed.
+
+  Lemma get_refresh_login_sd rq rnd sd : get_refresh NCE (login_sd rq rnd sd) = TEmpty.
+  Proof.
+    unfold get_refresh. rewrite login_sd_ref, login_sd_rchunks.
+    apply read_token_empty, Forall_empty_payloads.
+  Qed.
+
+  Lemma initiate_status rq rnd st sd cookies calls : r_status (initiate cfg rq rnd st sd cookies calls) = 302.
+  Proof. rewrite initiate_eq. reflexivity. Qed.
+  Lemma initiate_fwd rq rnd st sd cookies calls : r_fwd (initiate cfg rq rnd st sd cookies calls) = None.
+  Proof. rewrite initiate_eq. reflexivity. Qed.
+  Lemma initiate_calls rq rnd st sd cookies calls : r_calls (initiate cfg rq rnd st sd cookies calls) = calls.
+  Proof. rewrite initiate_eq. reflexivity. Qed.
+  Lemma initiate_flags rq rnd st sd cookies calls : r_flags (initiate cfg rq rnd st sd cookies calls) = [].
+  Proof. rewrite initiate_eq. reflexivity. Qed.
+  Lemma initiate_body rq rnd st sd cookies calls : r_body (initiate cfg rq rnd st sd cookies calls) = BNone.
+  Proof. rewrite initiate_eq. reflexivity. Qed.
+  Lemma initiate_loc rq rnd st sd cookies calls :
+    r_loc (initiate cfg rq rnd st sd cookies calls)
+    = Some (LAuth (i_auth_url st) (fst (fst rnd)) (snd (fst rnd))
+                  (if c_pkce cfg then snd rnd else 0) (q_scheme rq) (q_host rq)).
+  Proof. rewrite initiate_eq. reflexivity. Qed.
+  Lemma initiate_cookies rq rnd st sd cookies calls :
+    r_cookies (initiate cfg rq rnd st sd cookies calls)
+    = (cookies ++ save_cookies (cleared sd)) ++ save_cookies (login_sd rq rnd sd).
+  Proof. rewrite initiate_eq. reflexivity. Qed.
+
+  Lemma initiate_redirect rq rnd st sd cookies calls :
+    is_auth_redirect (i_auth_url st) (initiate cfg rq rnd st sd cookies calls) = true.
+  Proof. unfold is_auth_redirect. rewrite initiate_status, initiate_loc. cbn. apply N.eqb_refl. Qed.
+
+  Lemma initiate_main rq rnd st sd cookies calls :
+    emitted_main (initiate cfg rq rnd st sd cookies calls) = Some (s_main (login_sd rq rnd sd)).
+  Proof. eapply emitted_main_app_save. apply initiate_cookies. Qed.
+
+  Lemma initiate_emits rq rnd st sd cookies calls :
+    emits_auth (initiate cfg rq rnd st sd cookies calls) = false.
+  Proof. unfold emits_auth. rewrite initiate_main. apply login_sd_not_auth. Qed.
+
+  Lemma initiate_establishes now rq' rq rnd st sd cookies calls :
+    establishes E cfg now rq' (initiate cfg rq rnd st sd cookies calls) = false.
+  Proof. unfold establishes. rewrite initiate_emits. reflexivity. Qed.
+
+  (* the login redirect stores no ID token, provided the cookies emitted before it
+     carry no chunk cookie beyond those of the session it clears *)
+  Lemma initiate_emitted_id rq rnd st sd cookies calls :
+    chunks_bounded CAccChunk (length (s_achunks sd)) cookies ->
+    emitted_id E (initiate cfg rq rnd st sd cookies calls) = Some TEmpty.
+  Proof.
+    intros Hb. rewrite <- (get_access_login_sd rq rnd sd).
+    eapply emitted_id_app_save; [apply initiate_cookies|].
+    rewrite login_sd_achunks, length_empty_payloads.
+    apply chunks_bounded_app; [exact Hb|].
+    apply chunks_bounded_save_acc. cbn [cleared s_achunks]. rewrite length_empty_payloads. lia.
+  Qed.
+
+  Lemma initiate_emitted_rt rq rnd st sd cookies calls :
+    chunks_bounded CRefChunk (length (s_rchunks sd)) cookies ->
+    emitted_rt E (initiate cfg rq rnd st sd cookies calls) = Some TEmpty.
+  Proof.
+    intros Hb. rewrite <- (get_refresh_login_sd rq rnd sd).
+    eapply emitted_rt_app_save; [apply initiate_cookies|].
+    rewrite login_sd_rchunks, length_empty_payloads.
+    apply chunks_bounded_app; [exact Hb|].
+    apply chunks_bounded_save_ref. cbn [cleared s_rchunks]. rewrite length_empty_payloads. lia.
+  Qed.
+
+  Lemma initiate_new_token now rq' rq rnd st sd cookies calls :
+    chunks_bounded CAccChunk (length (s_achunks sd)) cookies ->
+    new_token E cfg now rq' (initiate cfg rq rnd st sd cookies calls) = false.
+  Proof. intros Hb. unfold new_token. rewrite initiate_emitted_id by exact Hb. reflexivity. Qed.
+
+  Lemma initiate_covers rq rnd st sd cookies calls n :
+    n = CMain \/ n = CAcc \/ n = CRef -> covers (initiate cfg rq rnd st sd cookies calls) n = true.
+  Proof. intros Hn. eapply covers_app_r; [apply initiate_cookies|]. apply covers_save_base, Hn. Qed.
+
+  (* ---------------------------------------------------------------- send_error *)
+
+  Lemma send_error_eq rq m code cs calls :
+    send_error rq m code cs calls
+    = mkResp code None cs (if q_json rq then BJson m else BHtml m) None false calls [].
+  Proof. reflexivity. Qed.
+
+  (* ---------------------------------------------------------------- handle_expired *)
+
+  Definition expired_sd (sd : sdata) : sdata :=
+    set_main 6 0 (set_refresh NCE 0 (set_access NCE 0 (set_authenticated 0%Z false sd))).
+
+  Lemma handle_expired_eq rq rnd st sd :
+    handle_expired E cfg rq rnd st sd
+    = initiate cfg rq rnd st (after_save (expired_sd sd)) (save_cookies (expired_sd sd)) [].
+  Proof. reflexivity. Qed.
+
+  (* ---------------------------------------------------------------- handle_logout *)
+
+  Lemma handle_logout_eq rq st sd :
+    exists loc, handle_logout E cfg rq st sd
+                = mkResp 302 (Some loc) (save_cookies (cleared sd)) BNone None false [] [].
+  Proof. unfold handle_logout. cbn [clear]. eexists. reflexivity. Qed.
+
+  (* ---------------------------------------------------------------- is_user_authenticated *)
+
+  Lemma iua_auth now sd r x :
+    is_user_authenticated E cfg now sd = (true, r, x) ->
+    authenticated now sd = true
+    /\ exists t, get_access NCE sd = TTok t /\ accept_at now (tok E t) = true.
+  Proof.
+    unfold is_user_authenticated. fold NCE. change (NC E) with NCE.
+    destruct (authenticated now sd); cbn [negb]; [|discriminate].
+    destruct (get_access NCE sd) as [|t|]; [discriminate| |discriminate].
+    destruct (accept_at now (tok E t)) eqn:Ha; cbn [negb]; [|discriminate].
+    intros _. split; [reflexivity|]. exists t. split; [reflexivity|exact Ha].
+  Qed.
+
+  Lemma iua_refresh now sd a x :
+    is_user_authenticated E cfg now sd = (a, true, x) -> get_refresh NCE sd <> TEmpty.
+  Proof.
+    unfold is_user_authenticated. change (NC E) with NCE.
+    intros H Hr. rewrite Hr in H. cbn [tval_eqb negb] in H.
+    destruct (authenticated now sd); cbn [negb] in H; [|discriminate].
+    destruct (get_access NCE sd) as [|t|]; try discriminate.
+    destruct (accept_at now (tok E t)); cbn [negb] in H; [|discriminate].
+    destruct (Z.ltb _ _); discriminate.
+  Qed.
+
+  (* ---------------------------------------------------------------- process_authorized *)
+
+  Lemma pa_cases rq rnd st sd cookies calls (P : response -> Prop) :
+    (get_str 6 (s_main sd) = 0 -> P (initiate cfg rq rnd st sd cookies calls)) ->
+    (forall m, get_str 6 (s_main sd) <> 0 -> P (send_error rq m 403 cookies calls)) ->
+    (get_str 6 (s_main sd) <> 0 -> q_options rq = true -> q_origin rq <> 0 ->
+     P (mkResp 200 None cookies BNone None true calls [])) ->
+    (forall h cors, get_str 6 (s_main sd) <> 0 ->
+     P (mkResp 200 None cookies BNone (Some h) cors calls [])) ->
+    P (process_authorized E cfg rq rnd st sd cookies calls).
+  Proof.
+    intros Hinit Herr Hpre Hfwd. unfold process_authorized.
+    destruct (N.eqb_spec (get_str 6 (s_main sd)) 0) as [H0|Hne]; [apply Hinit, H0|].
+    destruct (allowed_domain E cfg (get_str 6 (s_main sd))); cbn [negb]; [|apply Herr, Hne].
+    match goal with |- P (if negb ?b then _ else _) => destruct b end; cbn [negb]; [|apply Herr, Hne].
+    destruct (N.eqb_spec (q_origin rq) 0) as [Ho|Ho]; cbn [negb andb]; [apply Hfwd, Hne|].
+    destruct (q_options rq) eqn:Hopt; [apply Hpre; [exact Hne|reflexivity|exact Ho]|apply Hfwd, Hne].
+  Qed.
+
+  (* ---------------------------------------------------------------- handle_callback *)
+
+  (* the session a successful callback saves *)
+  Definition callback_sd (now : time) (sd : sdata) (id rt : istr) : sdata :=
+    let sd1 := set_authenticated now true sd in
+    let sd2 := set_main 6 (ti_email (tok E id)) sd1 in
+    let sd3 := set_refresh NCE rt (set_access NCE id sd2) in
+    let sd4 := set_main 5 0 (set_main 4 0 (set_main 3 0 sd3)) in
+    set_main 7 0 sd4.
+
+  Definition cb_call (rq : request) (sd : sdata) : pcall :=
+    PExchange (q_code rq) (q_scheme rq) (q_host rq) (get_str 5 (s_main sd)).
+
+  Lemma cb_cases rq st now sd ans (P : inst * response -> Prop) :
+    (* rejected before any provider call: always 400 *)
+    (forall m, P (st, send_error rq m 400 [] [])) ->
+    (* the code exchange failed *)
+    (forall m, (ans = None \/ exists g, ans = Some (AErr g)) ->
+               P (st, send_error rq m 500 [] [cb_call rq sd])) ->
+    (* the returned ID token was not verified *)
+    (forall m id rt, ans = Some (AOk id rt) -> snd (verify_token E st now id) = false ->
+               P (fst (verify_token E st now id), send_error rq m 500 [] [cb_call rq sd])) ->
+    (* verified, but unusable for this login *)
+    (forall m id rt, ans = Some (AOk id rt) -> snd (verify_token E st now id) = true ->
+               (ti_claims (tok E id) = false \/ ti_nonce (tok E id) = 0
+                \/ ti_nonce (tok E id) <> get_str 4 (s_main sd) \/ ti_email (tok E id) = 0) ->
+               P (fst (verify_token E st now id), send_error rq m 500 [] [cb_call rq sd])) ->
+    (* verified, e-mail domain not allowed *)
+    (forall m id rt, ans = Some (AOk id rt) -> snd (verify_token E st now id) = true ->
+               P (fst (verify_token E st now id), send_error rq m 403 [] [cb_call rq sd])) ->
+    (* success *)
+    (forall id rt loc, ans = Some (AOk id rt) -> snd (verify_token E st now id) = true ->
+               ti_claims (tok E id) = true ->
+               P (fst (verify_token E st now id),
+                  mkResp 302 (Some (LPath loc)) (save_cookies (callback_sd now sd id rt)) BNone None false
+                         [cb_call rq sd] [])) ->
+    P (handle_callback E cfg rq st now sd ans).
+  Proof.
+    intros Hquiet Hex Hver Hbad Hdom Hok. unfold handle_callback. fold (cb_call rq sd).
+    destruct (N.eqb_spec (q_error rq) 0) as [He|He]; cbn [negb]; [|apply Hquiet].
+    destruct (N.eqb_spec (q_state rq) 0) as [Hs|Hs]; [apply Hquiet|].
+    destruct (N.eqb_spec (get_str 3 (s_main sd)) 0) as [Hc|Hc]; [apply Hquiet|].
+    destruct (N.eqb_spec (q_state rq) (get_str 3 (s_main sd))) as [Hsc|Hsc]; cbn [negb]; [|apply Hquiet].
+    destruct (N.eqb_spec (q_code rq) 0) as [Hcode|Hcode]; [apply Hquiet|].
+    destruct ans as [[ig|id rt]|]; [apply Hex; right; eauto| |apply Hex; left; reflexivity].
+    destruct (verify_token E st now id) as [st1 ok] eqn:Ev.
+    replace st1 with (fst (verify_token E st now id)) by (rewrite Ev; reflexivity).
+    assert (Eok : snd (verify_token E st now id) = ok) by (rewrite Ev; reflexivity).
+    destruct ok; cbn [negb]; [|apply (Hver _ id rt); [reflexivity|exact Eok]].
+    destruct (ti_claims (tok E id)) eqn:Hcl; cbn [negb]; [|apply (Hbad _ id rt); auto].
+    destruct (N.eqb_spec (ti_nonce (tok E id)) 0) as [Hn|Hn]; [apply (Hbad _ id rt); auto|].
+    destruct (N.eqb_spec (get_str 4 (s_main sd)) 0) as [Hsn|Hsn];
+      [apply (Hbad _ id rt); auto; right; right; left; congruence|].
+    destruct (N.eqb_spec (ti_nonce (tok E id)) (get_str 4 (s_main sd))) as [Hnn|Hnn]; cbn [negb];
+      [|apply (Hbad _ id rt); auto].
+    destruct (N.eqb_spec (ti_email (tok E id)) 0) as [Hem|Hem]; [apply (Hbad _ id rt); auto|].
+    destruct (allowed_domain E cfg (ti_email (tok E id))) eqn:Had; cbn [negb]; [|apply (Hdom _ id rt); auto].
+    apply (Hok id rt); auto.
+  Qed.
+
+  Lemma get_access_callback_sd now sd id rt :
+    (forall t, (1 <= NCE t)%nat) ->
+    get_access NCE (callback_sd now sd id rt) = if N.eqb id 0 then TEmpty else TTok id.
+  Proof.
+    intros Hpos. unfold callback_sd. rewrite !get_access_set_main, get_access_set_refresh.
+    apply get_access_set_access, Hpos.
+  Qed.
+
+  (* ---------------------------------------------------------------- refresh_token *)
+
+  (* the session a successful refresh saves *)
+  Definition refreshed_sd (now : time) (sd : sdata) (id newrt : istr) : sdata :=
+    let sd1 := set_main 6 (ti_email (tok E id)) sd in
+    let sd2 := set_access NCE id sd1 in
+    let sd3 := match newrt, get_refresh NCE sd with
+               | 0%N, TTok old => set_refresh NCE old sd2
+               | 0%N, _ => sd2
+               | n, _ => set_refresh NCE n sd2
+               end in
+    set_authenticated now true sd3.
+
+  Lemma refresh_cases st now sd ans (P : inst * sdata * list setcookie * list pcall * bool -> Prop) :
+    get_refresh NCE sd <> TEmpty ->
+    (* failed, session untouched (the state may have been through VerifyToken) *)
+    (forall st', (st' = st \/ exists id, st' = fst (verify_token E st now id)) ->
+                 P (st', sd, [], [PRefresh (get_refresh NCE sd)], false)) ->
+    (* invalid_grant: the refresh token is dropped from the session *)
+    (ans = Some (AErr true) ->
+     P (st, after_save (set_refresh NCE 0 sd), save_cookies (set_refresh NCE 0 sd),
+        [PRefresh (get_refresh NCE sd)], false)) ->
+    (* success *)
+    (forall id newrt, ans = Some (AOk id newrt) -> id <> 0 ->
+       snd (verify_token E st now id) = true -> ti_claims (tok E id) = true -> ti_email (tok E id) <> 0 ->
+       P (fst (verify_token E st now id), after_save (refreshed_sd now sd id newrt),
+          save_cookies (refreshed_sd now sd id newrt), [PRefresh (get_refresh NCE sd)], true)) ->
+    P (refresh_token E st now sd ans).
+  Proof.
+    intros Hrt Hfail Hinv Hok. unfold refresh_token. change (NC E) with NCE.
+    unfold refreshed_sd in Hok.
+    destruct (get_refresh NCE sd) as [|old|] eqn:Er; [contradiction| |];
+    (destruct ans as [[[|]|id newrt]|];
+       [apply Hinv; reflexivity|apply Hfail; left; reflexivity| |apply Hfail; left; reflexivity];
+     destruct (N.eqb_spec id 0) as [Hid|Hid]; [apply Hfail; left; reflexivity|];
+     destruct (verify_token E st now id) as [st1 ok] eqn:Ev;
+     assert (Est : st1 = fst (verify_token E st now id)) by (rewrite Ev; reflexivity);
+     assert (Eok : snd (verify_token E st now id) = ok) by (rewrite Ev; reflexivity);
+     destruct ok; cbn [negb]; [|apply Hfail; right; eauto];
+     destruct (ti_claims (tok E id)) eqn:Hcl; cbn [negb]; [|apply Hfail; right; eauto];
+     destruct (N.eqb_spec (ti_email (tok E id)) 0) as [Hem|Hem]; [apply Hfail; right; eauto|];
+     rewrite Est; apply (Hok id newrt); auto).
+  Qed.
+
+  Lemma get_access_refreshed_sd now sd id newrt :
+    (forall t, (1 <= NCE t)%nat) ->
+    get_access NCE (refreshed_sd now sd id newrt) = if N.eqb id 0 then TEmpty else TTok id.
+  Proof.
+    intros Hpos. unfold refreshed_sd. rewrite get_access_set_auth.
+    destruct newrt as [|p]; [destruct (get_refresh NCE sd)|];
+      rewrite ?get_access_set_refresh; apply get_access_set_access, Hpos.
+  Qed.
+
+End Handlers.
+
+(* ================================================================== 6. the case analysis of serve *)
+
+Section ServeCases.
+  Variable E : env.
+  Variable cfg : config.
+  Notation NCE := (nchunks E).
+
+  (* what serve answers when a due refresh failed *)
+  Definition refresh_failed_resp (rq : request) (rnd : istr * istr * istr) (st1 : inst) (sd1 : sdata)
+             (cs : list setcookie) (calls : list pcall) : response :=
+    if q_json rq then mkResp 401 None cs BJson401 None false calls []
+    else initiate cfg rq rnd st1 sd1 cs calls.
+
+  Definition excluded_resp (rq : request) : response :=
+    mkResp 200 None [] BNone (Some (map (fun c => (1000 + c, HStr 0)) (q_client_ids rq))) false [] [].
+
+  Lemma gated_intro rq :
+    excluded E cfg (q_path rq) = false -> q_path rq <> c_logout cfg -> q_path rq <> c_callback cfg ->
+    gated E cfg rq = true.
+  Proof.
+    intros He Hl Hc. unfold gated, is_excluded, is_callback, is_logout. rewrite He.
+    destruct (N.eqb_spec (q_path rq) (c_callback cfg)); [contradiction|].
+    destruct (N.eqb_spec (q_path rq) (c_logout cfg)); [contradiction|]. reflexivity.
+  Qed.
+
+  (* every way a ready instance answers a request; sd is the session the
+     request carried (the monitors' `carried`) *)
+  Lemma serve_cases st now rq rnd ans (P : inst * response -> Prop) :
+    i_ready st = true ->
+    (* excluded path: forwarded untouched *)
+    (is_excluded E cfg rq = true -> P (st, excluded_resp rq)) ->
+    (* logout *)
+    (is_excluded E cfg rq = false -> is_logout cfg rq = true ->
+     P (st, handle_logout E cfg rq st (carried cfg now rq))) ->
+    (* callback *)
+    (is_excluded E cfg rq = false -> is_logout cfg rq = false -> is_callback cfg rq = true ->
+     P (handle_callback E cfg rq st now (carried cfg now rq) ans)) ->
+    (* gated, token expired and no refresh token *)
+    (gated E cfg rq = true -> P (st, handle_expired E cfg rq rnd st (carried cfg now rq))) ->
+    (* gated, valid session, no refresh due *)
+    (gated E cfg rq = true -> carries_valid_session E cfg now rq = true ->
+     P (st, process_authorized E cfg rq rnd st (carried cfg now rq) [] [])) ->
+    (* gated, refresh due: failed with the session untouched *)
+    (gated E cfg rq = true -> session_refresh E cfg now rq <> TEmpty ->
+     forall st', (st' = st \/ exists id, st' = fst (verify_token E st now id)) ->
+       P (st', refresh_failed_resp rq rnd st' (carried cfg now rq) []
+                                   [PRefresh (session_refresh E cfg now rq)])) ->
+    (* gated, refresh due: invalid_grant *)
+    (gated E cfg rq = true -> session_refresh E cfg now rq <> TEmpty -> ans = Some (AErr true) ->
+       P (st, refresh_failed_resp rq rnd st (after_save (set_refresh NCE 0 (carried cfg now rq)))
+                                  (save_cookies (set_refresh NCE 0 (carried cfg now rq)))
+                                  [PRefresh (session_refresh E cfg now rq)])) ->
+    (* gated, refresh due: succeeded *)
+    (gated E cfg rq = true -> session_refresh E cfg now rq <> TEmpty ->
+     forall id newrt, ans = Some (AOk id newrt) -> id <> 0 ->
+       snd (verify_token E st now id) = true -> ti_claims (tok E id) = true -> ti_email (tok E id) <> 0 ->
+       P (fst (verify_token E st now id),
+          process_authorized E cfg rq rnd (fst (verify_token E st now id))
+                             (after_save (refreshed_sd E now (carried cfg now rq) id newrt))
+                             (save_cookies (refreshed_sd E now (carried cfg now rq) id newrt))
+                             [PRefresh (session_refresh E cfg now rq)])) ->
+    (* gated, anything else: login redirect *)
+    (gated E cfg rq = true -> P (st, initiate cfg rq rnd st (carried cfg now rq) [] [])) ->
+    P (serve E cfg st now rq rnd ans).
+  Proof.
+    intros Hready Hexc Hlogout Hcb Hexp Hauth Hrfail Hrinv Hrok Hinit.
+    unfold serve. rewrite Hready. cbn [negb]. fold (carried cfg now rq).
+    change (excluded E cfg (q_path rq)) with (is_excluded E cfg rq).
+    change (N.eqb (q_path rq) (c_logout cfg)) with (is_logout cfg rq).
+    change (N.eqb (q_path rq) (c_callback cfg)) with (is_callback cfg rq).
+    destruct (is_excluded E cfg rq) eqn:He; [apply Hexc; reflexivity|].
+    destruct (is_logout cfg rq) eqn:Hl; [apply Hlogout; reflexivity|].
+    destruct (is_callback cfg rq) eqn:Hc; [apply Hcb; reflexivity|].
+    assert (Hg : gated E cfg rq = true) by (unfold gated; rewrite He, Hl, Hc; reflexivity).
+    change (NC E) with NCE.
+    destruct (is_user_authenticated E cfg now (carried cfg now rq)) as [[a r] x] eqn:Hiua.
+    destruct x; [apply Hexp, Hg|].
+    destruct a, r; cbn [andb negb].
+    - (* authenticated, refresh due *)
+      pose proof (iua_refresh E cfg _ _ _ _ Hiua) as Hrt.
+      destruct (tval_eqb (get_refresh NCE (carried cfg now rq)) TEmpty) eqn:Et;
+        [apply tval_eqb_eq in Et; contradiction|]. cbn [negb].
+      apply (refresh_cases E st now (carried cfg now rq) ans); [exact Hrt| | |].
+      + intros st' Hst'. generalize (Hrfail Hg Hrt st' Hst'). unfold refresh_failed_resp.
+        destruct (q_json rq); intros HH; exact HH.
+      + intros Ha. generalize (Hrinv Hg Hrt Ha). unfold refresh_failed_resp.
+        destruct (q_json rq); intros HH; exact HH.
+      + intros id newrt Ha Hid Hv Hcl Hem. exact (Hrok Hg Hrt id newrt Ha Hid Hv Hcl Hem).
+    - (* authenticated, no refresh due *)
+      apply Hauth; [exact Hg|]. unfold carries_valid_session, session_token.
+      destruct (iua_auth E cfg _ _ _ _ Hiua) as (Hau & t & Ht & Hacc).
+      change (NCm E) with NCE. rewrite Hau, Ht. exact Hacc.
+    - (* not authenticated, refresh token present *)
+      pose proof (iua_refresh E cfg _ _ _ _ Hiua) as Hrt.
+      destruct (tval_eqb (get_refresh NCE (carried cfg now rq)) TEmpty) eqn:Et;
+        [apply tval_eqb_eq in Et; contradiction|]. cbn [negb].
+      apply (refresh_cases E st now (carried cfg now rq) ans); [exact Hrt| | |].
+      + intros st' Hst'. generalize (Hrfail Hg Hrt st' Hst'). unfold refresh_failed_resp.
+        destruct (q_json rq); intros HH; exact HH.
+      + intros Ha. generalize (Hrinv Hg Hrt Ha). unfold refresh_failed_resp.
+        destruct (q_json rq); intros HH; exact HH.
+      + intros id newrt Ha Hid Hv Hcl Hem. exact (Hrok Hg Hrt id newrt Ha Hid Hv Hcl Hem).
+    - apply Hinit, Hg.
+  Qed.
+End ServeCases.
